@@ -431,6 +431,15 @@ func runPipeHT(c *Ctx) {
 		}
 		mEnc := c.M.Call("pht_encode", args(Hex(src))...)
 		want := "ok:" + Hex(tile)
+		// (c') the encoder model WITH the HTJ2K packet-header coder (PipeHT/PhtProofsZeroDef.v) on EVERY
+		// image, all-zero code-blocks included; "?" = the operation is not in this model.exe
+		if mz := c.M.Call("phtz_encode", args(Hex(src))...); mz != "?" {
+			c.R.Count("pht.encode_z_compared")
+			if nzero > 0 {
+				c.R.Count("pht.encode_z_compared_with_zero_block")
+			}
+			c.CorrEq("phtz_encode", sig(k, "encode-z"), mz, want, k)
+		}
 		if nzero == 0 {
 			c.R.Count("pht.encode_compared")
 			c.CorrEq("pht_encode", sig(k, "encode"), mEnc, want, k)
